@@ -63,6 +63,28 @@ CHECKS["C20"] = (
     "5/C20",
 )
 
+CHECKS["C02"] = (
+    "Trees.tla + Events.tla + OrderedOps.tla + Ordered.tla + TraceOrdered.tla",
+    "TLC: explicit enumeration of mappings x root orders x labellings (L0) = pairwise Bellman recurrence over <<species, positions>> (L1) on the small bound; the five-category recurrence of _compute_spfs_entry as a state machine filled one object node per action (CellInv against L1) for every root order; every TLC-listed and random larger input run through sreconcile_extended_spfs / sreconcile_base_spfs and the recorded calls judged by a TLA+ trace spec",
+    "Model checking of the declarative model against the Bellman and code-shaped layers, and trace validation of the real solvers' results (minimum over mappings, root orders and labellings; empty iff no compatible order) on TLC-listed and seeded random inputs.",
+    "Trusts TLC and the event/segment model of Events.tla + OrderedOps.tla (L0 by explicit enumeration on <= 3 object leaves, 2 families; L1 beyond); costs inside spe + 2*sloss <= dup + 2*floss; <= 5 object leaves, 4 species leaves, 4 families.",
+    "5/C02",
+)
+CHECKS["C03"] = (
+    "Trees.tla + Events.tla + UnorderedOps.tla + Unordered.tla + TraceUnordered.tla",
+    "TLC: explicit enumeration (L0) = pairwise Bellman recurrence over every labelling between required and allowed content (L1); lemma CanonLemma (canonical labellings lose nothing); the LCA/INHERIT recurrence of _compute_uspfs_entry as a state machine (CellInv: LCA entry = optimum with the required content, INHERIT entry = optimum with any larger content); real solver calls on TLC-listed and random larger inputs judged by a TLA+ trace spec",
+    "Model checking of the declarative model against the Bellman and code-shaped layers including the canonical-labelling lemma, and trace validation of usreconcile_extended_uspfs / usreconcile_base_uspfs results.",
+    "Trusts TLC and Events.tla + UnorderedOps.tla; all-labellings oracle up to 3 optional families per input in traces, canonical oracle beyond (lemma model-checked on the bound); costs inside the coherent region; <= 6 object leaves, 4 species leaves, 4 families.",
+    "5/C03",
+)
+CHECKS["C08"] = (
+    "Binarize.tla + TriplesOps.tla + TraceOrdered.tla + TraceUnordered.tla",
+    "TLC: binarize as a post-order state machine (graft / arrange_leaves with the ignore set) against the declarative set of binary refinements for every tree shape of the bound (each once, count = prod (2k-3)!!); TLC-generated refinement sets compared with utils.trees.binarize and ReconciliationInput.binarize; extended solvers on inputs with polytomies judged by a TLA+ trace spec against the minimum of the solver specification over all refinement pairs",
+    "Model checking of the enumerator against Refinements(t), bounded-exhaustive spec->code replay of every shape (names, colours, leaf features), trace validation of the end-to-end optimum and of the trees the solutions refer to.",
+    "Trusts TLC, Binarize.tla and the solver specifications; shapes <= 5 (6) leaves for the enumerator, <= 4+4 leaves and <= 30 refinement pairs end to end.",
+    "5/C08",
+)
+
 NOT_YET = {}
 
 
